@@ -86,6 +86,7 @@ func lockWalletLevel(r *core.Run, kind string) {
 							}
 						}
 						r.Eval(sig, true)
+						r.Count("wallet_level_tokens_redeemed", 1)
 						if kind == "HTLC" {
 							wrong := strings.Repeat("ab", 32)
 							if got, err := b.ReceiveHTLC(tok, wrong); err == nil {
